@@ -455,6 +455,11 @@ func c12PkgCase(seed int64, idx int) core.RefCase {
 		fmt.Fprintf(&sb, "type Q struct {\n\tP *P\n\tN int\n}\n\n")
 		fmt.Fprintf(&sb, "func (q *Q) Sum() int {\n\treturn q.P.X + q.N + %d\n}\n\n", k)
 		fmt.Fprintf(&sb, "var K = %d\nvar Tag = \"%s-pkg\"\n\n", k*100, tag)
+		// a method may be called init; types defined from something else than a struct declaration
+		fmt.Fprintf(&sb, "func (q *Q) init(n int) *Q {\n\tq.N = n + %d\n\treturn q\n}\n\n", k)
+		fmt.Fprintf(&sb, "func NewQ(n int) *Q {\n\tq := &Q{P: New(n)}\n\treturn q.init(n)\n}\n\n")
+		fmt.Fprintf(&sb, "type Celsius float64\n\ntype Count uint8\n\ntype Same = P\n\n")
+		fmt.Fprintf(&sb, "func Warm(c Celsius) Celsius {\n\treturn c / 2\n}\n\n")
 		return sb.String()
 	}
 	splitLib := func(dir, src string, files map[string]string) {
@@ -491,7 +496,8 @@ func c12PkgCase(seed int64, idx int) core.RefCase {
 		fmt.Fprintf(&sb, "\tgb \"%s/%s\"\n", root, p2)
 	}
 	sb.WriteString(")\n\n")
-	fmt.Fprintf(&sb, "type L struct {\n\tG *%s.P\n\tK int\n}\n\n", a1)
+	fmt.Fprintf(&sb, "type L struct {\n\tG *%s.P\n\tK int\n\tTemp %s.Celsius\n\tN %s.Count\n\tS *%s.Same\n}\n\n", a1, a1, a1, a1)
+	fmt.Fprintf(&sb, "func (l *L) init(k int) {\n\tl.K += k\n\tl.Temp = 5\n\tl.N = 250\n}\n\n")
 	fmt.Fprintf(&sb, "func (l *L) Show() string {\n\treturn l.G.Show() + fmt.Sprint(l.K)\n}\n\n")
 	// a local named like the import: stores through it are stores to the local's fields, also where the package has members of those names
 	fmt.Fprintf(&sb, "type Sh struct {\n\tK int\n\tTag string\n}\n\nfunc shadow(n int) string {\n\t%s := &Sh{K: 1, Tag: \"local\"}\n\talias := %s\n\t%s.K = n\n\t%s.K++\n\t%s.K += 10\n\t%s.Tag = \"changed\"\n\treturn fmt.Sprint(%s.K, alias.K) + %s.Tag + alias.Tag\n}\n\n", a1, a1, a1, a1, a1, a1, a1, a1)
@@ -501,6 +507,8 @@ func c12PkgCase(seed int64, idx int) core.RefCase {
 	fmt.Fprintf(&sb, "\tq := &%s.Q{P: a, N: %d}\n\tl := &L{G: b, K: %d}\n\tvar z *%s.P\n", a1, d, x, a1)
 	sb.WriteString("\tfmt.Println(a.Show(), b.Show(), q.Sum(), l.Show(), z.Show(), q.P.Show())\n")
 	sb.WriteString("\tf := a.Show\n\ta.Move(1)\n\tfmt.Println(f(), a.X, b.Y)\n")
+	fmt.Fprintf(&sb, "\tl.init(%d)\n\tl.N += 10\n\tfmt.Println(l.K, l.Temp/2, l.N, l.S == nil, l.S.Show(), %s.Warm(l.Temp), %s.NewQ(%d).Sum())\n", d+1, a1, a1, x)
+	fmt.Fprintf(&sb, "\tvar t %s.Celsius = 7\n\tvar cn %s.Count = 200\n\tcn += 100\n\tl.S = a\n\tfmt.Println(t/2, cn, l.S.Show())\n", a1, a1)
 	fmt.Fprintf(&sb, "\tfmt.Println(shadow(%d), %s.K, %s.Tag)\n", x, a1, a1)
 	if two {
 		fmt.Fprintf(&sb, "\tc := %s.New(%d)\n\tc.Move(2)\n\tq2 := &%s.Q{P: c, N: 1}\n\tvar z2 *%s.P\n", a2, x+1, a2, a2)
@@ -552,7 +560,10 @@ func (t *T) Name() string { return "<" + t.S + ">" }
 func mk() *T { return &T{} }
 func mkD() *D { return &D{} }
 func mkY(y int) *T { return &T{Y: y} }
-func sum(t *T) int { return t.X*100 + t.Y }`); o.Failed() {
+func sum(t *T) int { return t.X*100 + t.Y }
+type N struct { V int }
+var keep = &N{V: 4}
+func mkN(v int) *N { return &N{V: v} }`); o.Failed() {
 		return "set-up failed: " + o.Err + o.Panic
 	}
 	var what string
@@ -647,6 +658,35 @@ func sum(t *T) int { return t.X*100 + t.Y }`); o.Failed() {
 		}
 		r7 := m.Call("main.viaScript", 1, a)
 		expect("script call of an added method on an old instance", fmt.Sprintf("%v|%s", r7.Rets, r7.Err), fmt.Sprintf("[%d]|", (x+n)*100+nExtra-1+x+n))
+		// a type that had no method when its instances were made gets its first methods from a later Eval
+		nBase := m.VM.Get("main.N")
+		hostN := goatlang.NewStruct(nBase, []goatlang.Value{S("V"), I(6)})
+		var scriptN goatlang.Value
+		if rets, err := m.VM.Call("main.mkN", 1, I(5)); err == nil && len(rets) == 1 {
+			scriptN = rets[0]
+		} else {
+			what = fmt.Sprint("mkN failed: ", err)
+			return
+		}
+		if o := m.Eval(nil, "func (n *N) Val() int { return n.V * 2 }\nfunc (n *N) Bump() { n.V++ }\nfunc useKeep() int { keep.Bump(); return keep.Val() }"); o.Failed() {
+			what = "adding the first methods of a type in a later Eval fails: " + core.ErrFirstLine(o.Err) + o.Panic
+			return
+		}
+		r8 := m.Call("main.useKeep", 1)
+		expect("first methods of a type, added later, called on an instance made before (script)", fmt.Sprintf("%v|%s", r8.Rets, r8.Err), "[10]|")
+		for _, in := range []struct {
+			label string
+			v     goatlang.Value
+			want  int
+		}{{"host-made", hostN, 12}, {"script-made", scriptN, 10}} {
+			val := in.v.GetAttr("Val")
+			if val.IsNil() {
+				what = "the first method of a type, added by a later Eval, is not found on a " + in.label + " instance made before"
+				return
+			}
+			r9 := m.Func(val, 1)
+			expect("Val() on a "+in.label+" instance made before the type had methods", fmt.Sprintf("%v|%s", r9.Rets, r9.Err), fmt.Sprintf("[%d]|", in.want))
+		}
 		// an instance of the alias type, made by a script, is an instance of T
 		if rets, err := m.VM.Call("main.mkD", 1); err == nil && len(rets) == 1 {
 			r5 := m.Func(rets[0].GetAttr("Add"), 1, I(1))
